@@ -190,7 +190,7 @@ func genC10(t *rapid.T) C10Case {
 	for _, o := range g.W.List() {
 		c.Objs = append(c.Objs, o.Clone())
 	}
-	if chanceT(t, "history", 35) {
+	if chanceT(t, "history", 45) {
 		orig := map[string]*world.Obj{}
 		for _, o := range c.Objs {
 			orig[o.Key()] = o
@@ -228,7 +228,19 @@ func genC10(t *rapid.T) C10Case {
 					op = world.Op{Op: "update", Obj: n}
 				default: // an object leaves, or one that left comes back as it was
 					var present, gone []*world.Obj
-					epOp := g.chance("epop", 40)
+					epOp := g.chance("epop", 50)
+					// mostly the Endpoints of a service that some route references
+					epRefOnly := g.chance("eprefonly", 75)
+					refSvc := map[string]bool{}
+					for _, o := range c.Objs {
+						if o.RT != nil {
+							for _, r := range o.RT.Rules {
+								for _, b := range r.Backends {
+									refSvc[o.NS+"/"+b.Name] = true
+								}
+							}
+						}
+					}
 					for _, o := range c.Objs {
 						// (also the Endpoints / Service objects the routes reference: a route admitted while the endpoints
 						// of its service do not exist yet gets its servers when they arrive)
@@ -236,6 +248,9 @@ func genC10(t *rapid.T) C10Case {
 							continue
 						}
 						if (o.Kind == world.KEndpoints || o.Kind == world.KService) != epOp {
+							continue
+						}
+						if epOp && epRefOnly && !(o.Kind == world.KEndpoints && refSvc[o.NS+"/"+o.Name]) {
 							continue
 						}
 						if g.W.Objs[o.Key()] != nil {
